@@ -98,7 +98,7 @@ func union(ms ...M) M {
 // chunkings
 
 // splitS splits a non-empty string. Modes: "1"; "2" two halves; "3e" halves with an empty chunk between;
-// "4" four pieces. The first chunk is never empty.
+// "4" four pieces. The first chunk is never empty. ("3z" exists for maps only.)
 func splitS(s string, mode string) []string {
 	h := (len(s) + 1) / 2
 	switch mode {
@@ -106,7 +106,7 @@ func splitS(s string, mode string) []string {
 		return []string{s}
 	case "2":
 		return []string{s[:h], s[h:]}
-	case "3e", "3n":
+	case "3e", "3z":
 		return []string{s[:h], "", s[h:]}
 	case "4":
 		q := (h + 1) / 2
@@ -116,9 +116,10 @@ func splitS(s string, mode string) []string {
 	panic("c04 harness: unknown chunking " + mode)
 }
 
-// splitM splits a flat map of strings. "1"; "2"/"3e"/"4": every value split like a string, chunk i carries
-// piece i of every key ("3e": the middle chunk carries every key with an empty string); "3n": halves with
-// an empty map between; "2k": one chunk per key (sorted).
+// splitM splits a flat map of strings. "1"; "2"/"4": every value split like a string, chunk i carries piece i
+// of every key; "3e": the halves with a chunk between that is empty for every key (it lacks them: {});
+// "3z": the halves with a chunk between that carries every key with a zero-length string; "2k": one chunk
+// per key (sorted).
 func splitM(m M, mode string) []M {
 	ks := make([]string, 0, len(m))
 	for k := range m {
@@ -134,7 +135,7 @@ func splitM(m M, mode string) []M {
 			out = append(out, M{k: m[k]})
 		}
 		return out
-	case "3n":
+	case "3e":
 		hs := splitM(m, "2")
 		return []M{hs[0], {}, hs[1]}
 	}
